@@ -303,6 +303,13 @@ func runC18(t *sim.T, tier string) *sim.Violation {
 		maxTasks, maxSteps = 8, 6
 	}
 	nTasks := t.Range(2, maxTasks)
+	// now and then a crowd: dozens of callers with one call each (limits on the number of calls in flight,
+	// fixed-size tables of per-caller state)
+	crowd := !giant && t.Chance(1, 40)
+	if crowd {
+		nTasks, maxSteps = t.Range(17, 48), 1
+		t.Probe("crowd-of-callers")
+	}
 	if giant {
 		// two identical calls after the solo one
 		nTasks, maxSteps = 2, 1
@@ -315,7 +322,7 @@ func runC18(t *sim.T, tier string) *sim.Violation {
 		n := t.Range(1, maxSteps)
 		for k := 0; k < n; k++ {
 			op := c18Op{}
-			if giant || (nST > 0 && (t.Chance(1, 4) || (staticHeavy && t.Chance(1, 2)))) {
+			if giant || (nST > 0 && (t.Chance(1, 4) || (staticHeavy && t.Chance(1, 2)) || (crowd && t.Chance(1, 2)))) {
 				op.kind = 1
 				op.input = t.Choose(nST)
 				op.inherit = t.Chance(1, 2) && !giant
